@@ -63,8 +63,18 @@ func c14Record(r *Rng, tier string) (dastard.VerifRecord, []uint64) {
 		v.Data[j] = dastard.RawType(r.Pick(0, 65535, 32767, 32768, r.Intn(65536)))
 	}
 	v.Presamples = r.Pick(0, 1, ln/4, ln, r.Intn(1<<20))
-	v.SampPeriod = math.Float32frombits(uint32(r.U64()))
-	v.VoltsPerArb = math.Float32frombits(uint32(r.U64()))
+	// any bit pattern, with the special ones (zeros of either sign, subnormals, infinities, NaNs, the default
+	// scale 1/65535) drawn often: the message carries the record's own value, whatever it is
+	f32bits := func() uint32 {
+		if r.Chance(30) {
+			specials := []uint32{0, 0x80000000, 1, 0x80000001, 0x007fffff, 0x00800000, 0x7f800000, 0xff800000, 0x7fc00000,
+				0xffc00001, 0x3f800000, 0xbf800000, math.Float32bits(1. / 65535.0), 0x7f7fffff}
+			return specials[r.Intn(len(specials))]
+		}
+		return uint32(r.U64())
+	}
+	v.SampPeriod = math.Float32frombits(f32bits())
+	v.VoltsPerArb = math.Float32frombits(f32bits())
 	v.TrigFrame = extremeI64(r)
 	v.TrigTimeNs = extremeI64(r)
 	v.PretrigMean, v.PeakValue, v.PulseRMS, v.PulseAverage, v.ResidualStdDev = weirdF64(r), weirdF64(r), weirdF64(r), weirdF64(r), weirdF64(r)
